@@ -63,6 +63,7 @@ func runC03(t *testing.T, e *worlds.Env, tier string) (bool, any) {
 	wrappers := ""
 	clientEndName := ""
 	var rs *worlds.RecSelector
+	ppSend := ""
 	e.Run(t, func() func() bool {
 		tp := e.T
 		e.N.Cfg = netKnobs(e)
@@ -162,6 +163,26 @@ func runC03(t *testing.T, e *worlds.Env, tier string) (bool, any) {
 			Upstreams:     l4proxy.UpstreamPool{up0},
 			LoadBalancing: &l4proxy.LoadBalancing{SelectionPolicy: rs, TryDuration: caddy.Duration(tryDur), TryInterval: caddy.Duration(20 * time.Millisecond)},
 		}
+		// wave 12: in two runs of five the proxy also sends a PROXY header to every upstream (the
+		// `proxy_protocol` option): the relay, its half-close and its cleanup are the same behind it.
+		// (Derived from the run seed, not drawn: the tapes of earlier replays stay valid. Not with an
+		// echoing upstream, which would send the header back to the client.)
+		if !tlsUp {
+			echoes := false
+			for _, sc := range scripts {
+				echoes = echoes || sc.Mode == worlds.UpEcho
+			}
+			if !echoes {
+				switch e.S.Seed % 5 {
+				case 0:
+					ppSend = "v1"
+				case 1:
+					ppSend = "v2"
+				}
+			}
+		}
+		h.ProxyProtocol = ppSend
+		sample.DialFault += map[bool]string{true: " proxy_protocol=" + ppSend, false: ""}[ppSend != ""]
 		if err := h.Provision(e.Ctx); err != nil {
 			panic(err)
 		}
@@ -308,6 +329,23 @@ func runC03(t *testing.T, e *worlds.Env, tier string) (bool, any) {
 		}
 		fail := func(kind, format string, a ...any) { e.S.Fail("C03/"+kind, sig, format, a...) }
 		recs := ups.RecsSnapshot()
+		if ppSend != "" {
+			// what an upstream received starts with the PROXY header (judged by C12); the relay
+			// oracles look at what follows it
+			var stripped []*worlds.UpConnRec
+			for _, r := range recs {
+				c := *r
+				if len(c.Received) > 0 {
+					n, _, _, _, _, err := ParsePP(c.Received)
+					if err != nil || n > len(c.Received) {
+						return // a connection cut inside the header (or no header: C12's subject): nothing to judge behind it
+					}
+					c.Received = c.Received[n:]
+				}
+				stripped = append(stripped, &c)
+			}
+			recs = stripped
+		}
 		off := -1
 		for _, hc := range model.HandlerCalls {
 			if hc.Handler == "P0" {
